@@ -1,7 +1,7 @@
 (* Property C04, receive-path half (stream framing, link-layer reassembly, PIT-token dispatch): never panics, never
    spins, allocation bounded; a frame that fails to decode changes no state.  Only statements closed by `exact`. *)
 From Base Require Import Bytes VarNum.
-From Face Require Import GenConsts Stream StreamProofs.
+From Face Require Import GenConsts Stream StreamProofs Lp LpProofs LpReasm LpTotal.
 Open Scope N_scope.
 
 (* Stream framer (fw/face/stream-transport.go readTlvStream), for ALL byte streams and ALL read schedules:
@@ -14,15 +14,64 @@ Theorem stream_total : forall stream sched,
 Proof. exact stream_total_lemma. Qed.
 Print Assumptions stream_total.
 
-(* The same statement was false for the code before the repair (guard = false): a length of 2^63 panics, a length of
-   2^64-10 loops for ever.  (Witnesses replayed on the real code: corpus/C04_face/stream-len-*.case.) *)
+(* reassemblePacket for ANY store and ANY peer-supplied base sequence / FragIndex / FragCount (all of N, i.e. beyond
+   uint64 too): no index panic; a frame adds at most FragCount <= maxFragCount slots and at most its fragment's bytes. *)
+Theorem reassembly_total : forall s base idx cnt frag,
+  match reassemble true s base idx cnt frag with
+  | RPanic => False
+  | RNone s' => (store_cells s' <= store_cells s + N.to_nat c_maxFragCount)%nat /\ (store_bytes s' <= store_bytes s + length frag)%nat
+  | RDone s' _ => (store_cells s' <= store_cells s)%nat /\ (store_bytes s' <= store_bytes s)%nat
+  end.
+Proof. exact reassemble_total_lemma. Qed.
+Print Assumptions reassembly_total.
+
+(* Thread dispatch: the thread id taken from a 6-byte PIT token is bounds-checked (an id >= the thread count drops the
+   packet); name-hash derived ids are in range when fw.Threads and the dispatch table have the same length (l3_ok). *)
+Theorem dispatch_total : forall c st i d raw tok mark nh cp,
+  ol3_ok (r_nthreads c) i -> ol3_ok (r_nthreads c) d ->
+  exists st' out, dispatch true c st i d raw tok mark nh cp = HOk st' out /\ r_store st' = r_store st /\
+                  Forall (fun x => d_thread x < r_nthreads c) out.
+Proof. exact dispatch_total_lemma. Qed.
+Print Assumptions dispatch_total.
+
+(* handleIncomingFrame for ANY decoded frame in ANY state: no panic, bounded growth of the partial message store
+   (slots: maxFragCount per frame; bytes: the fragment carried by the frame), deliveries only to existing threads. *)
+Theorem handle_frame_total : forall c inner st dec frame,
+  (forall p, match inner p with DErr => True | DPkt i d _ => ol3_ok (r_nthreads c) i /\ ol3_ok (r_nthreads c) d end) ->
+  (match dec with DErr => True | DPkt i d _ => ol3_ok (r_nthreads c) i /\ ol3_ok (r_nthreads c) d end) ->
+  exists st' out, handle_frame true c inner st dec frame = HOk st' out /\
+    (store_cells (r_store st') <= store_cells (r_store st) + N.to_nat c_maxFragCount)%nat /\
+    (store_bytes (r_store st') <= store_bytes (r_store st) + frag_len dec)%nat /\
+    Forall (fun x => d_thread x < r_nthreads c) out.
+Proof. exact handle_frame_total_lemma. Qed.
+Print Assumptions handle_frame_total.
+
+(* A frame that fails to decode changes no forwarder state: store and counters equal, nothing dispatched. *)
+Theorem bad_frame_state_unchanged : forall g c inner st frame, handle_frame g c inner st DErr frame = HOk st [].
+Proof. exact bad_frame_state_unchanged_lemma. Qed.
+Print Assumptions bad_frame_state_unchanged.
+
+(* The statements were false for the code before the repairs (guard = false); witnesses replayed on the real code
+   (corpus/C04_face): stream length 2^63 panics, length 2^64-10 loops for ever; FragIndex 5 of FragCount 3 is an index
+   panic; a 6-byte PIT token naming thread 8 of 8 is an index panic. *)
 Theorem stream_total_refuted_before_fix :
   (exists stream sched, fst (fst (fst (run false stream sched))) = SPanic) /\
   (exists stream sched, fst (fst (fst (run false stream sched))) = SSpin).
 Proof. exact StreamProofs.stream_total_refuted_before_fix. Qed.
 Print Assumptions stream_total_refuted_before_fix.
 
+Theorem reassembly_total_refuted_before_fix : reassemble false [] 7 5 3 [1] = RPanic.
+Proof. exact reassembly_refuted_before_fix. Qed.
+Print Assumptions reassembly_total_refuted_before_fix.
+
+Theorem dispatch_total_refuted_before_fix :
+  dispatch false (mkRc true false false false 8) rs_init None (Some (mkL3 0 [])) [6;1] [0;8;1;2;3;4] None None None = HPanic.
+Proof. exact dispatch_refuted_before_fix. Qed.
+Print Assumptions dispatch_total_refuted_before_fix.
+
 Example c04_face_example :
   fst (fst (fst (run true [6; 255; 128;0;0;0;0;0;0;0; 1;2;3] [RReq 100]))) = SErrTooMuch /\
-  fst (fst (fst (run true [6;1;7; 5;0] [RReq 1; RReq 5]))) = SOk.
-Proof. split; vm_compute; reflexivity. Qed.
+  fst (fst (fst (run true [6;1;7; 5;0] [RReq 1; RReq 5]))) = SOk /\
+  reassemble true [] 7 5 3 [1] = RNone [] /\
+  (exists s, reassemble true [] 7 1 3 [1] = RNone s /\ store_cells s = 3%nat).
+Proof. repeat split; try (vm_compute; reflexivity). eexists. split; vm_compute; reflexivity. Qed.
